@@ -91,12 +91,10 @@ func (g *Gateway) subscriptionHandler(w http.ResponseWriter, r *http.Request) {
 		// gracefully close connection
 		body := ws.NewCloseFrameBody(ws.StatusNormalClosure, "")
 		frame := ws.NewCloseFrame(body)
+		// the client can be gone already, running handlers have to be closed anyway
 		var closeFrame bytes.Buffer
-		if err := ws.WriteFrame(&closeFrame, frame); err != nil {
-			return
-		}
-		if _, err := conn.Write(closeFrame.Bytes()); err != nil {
-			return
+		if err := ws.WriteFrame(&closeFrame, frame); err == nil {
+			conn.Write(closeFrame.Bytes())
 		}
 
 		// close conn
